@@ -117,6 +117,8 @@ type Exec struct {
 	unrolled    int
 	symArrCtr   int
 	symStack    map[string]int
+	recordedLocals map[string][]localVar // function -> named variables in order, as recorded with the baseline
+	renamed     map[string]string // for the function under contract: recorded local name -> its current name
 	witnessTuples [][]Expr // hinted witnesses for the existential clause being proved
 	sliceCells  map[string]*Cell // backing arrays of slices held by region objects, by owner identity
 	recDepth    int
